@@ -163,7 +163,7 @@ def run(tier, v):
     t0 = time.time()
     cov = {"samples": [], "states": 0, "transitions": 0, "configs": {}}
     h = vlib.build_harness(["x03"])
-    nmix = 48 if quick else 6000
+    nmix = 48 if quick else 3000
     # the mixed sessions run alone (their schedules are perturbed by seeded delays, not by our own JVMs); the design-level
     # TLC runs and the steered / measuring drivers follow while the recordings are validated
     out_mix, s_mix, f_mix, scen_mix = _drive(h, "mix", nmix, 8 if quick else 16, merge=4 if quick else 0)
@@ -171,7 +171,7 @@ def run(tier, v):
     out_l, s_l, f_l, scen_l = _drive(h, "late", 4 if quick else 12, 2, merge=1)
     pool = ThreadPoolExecutor(max_workers=2)
     tlc_future = pool.submit(_tlc_all, tier)
-    out_p, s_p, f_p, scen_p = _drive(h, "pumps", 6 if quick else 24, 3 if quick else 4, merge=1)
+    out_p, s_p, f_p, scen_p = _drive(h, "pumps", 6 if quick else 12, 3 if quick else 4, merge=1)
     cov["driver_wall_s"] = round(time.time() - t0, 1)
     stuck = sum(s.get("stuck", 0) for s in (s_mix, s_p, s_w, s_l))
 
